@@ -218,7 +218,7 @@ fn shaped(ctx: &mut Ctx, len: usize) -> Vec<u8> {
 
 pub fn run(ctx: &mut Ctx) {
     // dense range: every L in 0..=63, every N in 0..=L+1
-    let reps = ctx.count(16 * 60, 16 * 8000) / 16;
+    let reps = ctx.count(16 * 60, 16 * 30000) / 16;
     let mut idx = 0u64;
     for l in 0..=63usize {
         for _r in 0..reps.max(1) {
